@@ -1,3 +1,258 @@
+//! Trust chain of the reference semantics (DESIGN.md 2.3), re-checked on every run:
+//! (i) the UTF-8 DFA against std; (ii) every Unicode class byte automaton against char::encode_utf8
+//! over all 0x110000 scalars; (iii) the subset automaton against a denotational evaluator of HIR on
+//! all short strings; (iv) against the `regex` crate proper (a different engine stack).
 use crate::Args;
-use vcore::report::Report;
-pub fn run(a: &Args) -> Report { Report::new(&a.prop, "stub", &a.tier_name) }
+use rayon::prelude::*;
+use regex_syntax::hir::{Class, Hir, HirKind, Look};
+use std::collections::BTreeSet;
+use vcore::refaut::RefAut;
+use vcore::report::{Report, Violation};
+
+fn is_word(b: Option<u8>) -> bool {
+    matches!(b, Some(b'0'..=b'9' | b'A'..=b'Z' | b'a'..=b'z' | b'_'))
+}
+
+fn decode(h: &[u8], pos: usize) -> Option<(char, usize)> {
+    let rest = &h[pos..];
+    for n in 1..=4.min(rest.len()) {
+        if let Ok(s) = std::str::from_utf8(&rest[..n]) {
+            return Some((s.chars().next().unwrap(), n));
+        }
+    }
+    None
+}
+
+/// denotational semantics: the set of end positions of matches of `hir` starting at `pos`
+pub fn ends(hir: &Hir, h: &[u8], pos: usize) -> BTreeSet<usize> {
+    let mut out = BTreeSet::new();
+    match hir.kind() {
+        HirKind::Empty => {
+            out.insert(pos);
+        }
+        HirKind::Literal(l) => {
+            if h[pos..].starts_with(&l.0) {
+                out.insert(pos + l.0.len());
+            }
+        }
+        HirKind::Class(Class::Bytes(c)) => {
+            if let Some(&b) = h.get(pos) {
+                if c.ranges().iter().any(|r| r.start() <= b && b <= r.end()) {
+                    out.insert(pos + 1);
+                }
+            }
+        }
+        HirKind::Class(Class::Unicode(c)) => {
+            if let Some((ch, n)) = decode(h, pos) {
+                if c.ranges().iter().any(|r| r.start() <= ch && ch <= r.end()) {
+                    out.insert(pos + n);
+                }
+            }
+        }
+        HirKind::Look(look) => {
+            let prev = if pos == 0 { None } else { Some(h[pos - 1]) };
+            let next = h.get(pos).copied();
+            let ok = match look {
+                Look::Start => pos == 0,
+                Look::End => pos == h.len(),
+                Look::StartLF => pos == 0 || prev == Some(b'\n'),
+                Look::EndLF => pos == h.len() || next == Some(b'\n'),
+                Look::StartCRLF => pos == 0 || prev == Some(b'\n') || (prev == Some(b'\r') && next != Some(b'\n')),
+                Look::EndCRLF => pos == h.len() || next == Some(b'\r') || (next == Some(b'\n') && prev != Some(b'\r')),
+                Look::WordAscii => is_word(prev) != is_word(next),
+                Look::WordAsciiNegate => is_word(prev) == is_word(next),
+                Look::WordStartAscii => !is_word(prev) && is_word(next),
+                Look::WordEndAscii => is_word(prev) && !is_word(next),
+                Look::WordStartHalfAscii => !is_word(prev),
+                Look::WordEndHalfAscii => !is_word(next),
+                _ => false,
+            };
+            if ok {
+                out.insert(pos);
+            }
+        }
+        HirKind::Repetition(rep) => {
+            let mut cur: BTreeSet<usize> = [pos].into_iter().collect();
+            let mut seen: BTreeSet<usize> = BTreeSet::new();
+            let mut k = 0u32;
+            if rep.min == 0 {
+                out.insert(pos);
+            }
+            loop {
+                if let Some(max) = rep.max {
+                    if k >= max {
+                        break;
+                    }
+                }
+                let mut nxt = BTreeSet::new();
+                for &p in &cur {
+                    nxt.extend(ends(&rep.sub, h, p));
+                }
+                k += 1;
+                if nxt.is_empty() {
+                    break;
+                }
+                if k >= rep.min {
+                    out.extend(nxt.iter().copied());
+                }
+                // positions only move forward or stay: after enough rounds nothing new can appear
+                if k > rep.min + h.len() as u32 + 2 && nxt.is_subset(&seen) {
+                    break;
+                }
+                seen.extend(nxt.iter().copied());
+                cur = nxt;
+            }
+        }
+        HirKind::Capture(c) => return ends(&c.sub, h, pos),
+        HirKind::Concat(hs) => {
+            let mut cur: BTreeSet<usize> = [pos].into_iter().collect();
+            for x in hs {
+                let mut nxt = BTreeSet::new();
+                for &p in &cur {
+                    nxt.extend(ends(x, h, p));
+                }
+                cur = nxt;
+                if cur.is_empty() {
+                    break;
+                }
+            }
+            return cur;
+        }
+        HirKind::Alternation(hs) => {
+            for x in hs {
+                out.extend(ends(x, h, pos));
+            }
+        }
+    }
+    out
+}
+
+/// match ends (from position 0) according to the subset automaton
+fn aut_ends(ra: &RefAut, h: &[u8]) -> BTreeSet<usize> {
+    let mut out = BTreeSet::new();
+    let mut s = 0usize;
+    for n in 0..=h.len() {
+        let sym = h.get(n).copied();
+        let (m, nx) = &ra.trans[s][ra.col(sym)];
+        if !m.is_empty() {
+            out.insert(n);
+        }
+        if sym.is_none() {
+            break;
+        }
+        s = *nx;
+    }
+    out
+}
+
+fn parse(p: &str, unicode: bool) -> Option<Hir> {
+    regex_syntax::ParserBuilder::new().utf8(false).unicode(unicode).build().parse(p).ok()
+}
+
+pub fn run(a: &Args) -> Report {
+    let mut rep = Report::new(&a.prop, "vgraph selfcheck (reference trust chain)", &a.tier_name);
+    let fail = |rep: &mut Report, what: String| {
+        if rep.violations.len() < 10 {
+            rep.violations.push(Violation { key: format!("SELFCHECK/{what}"), tag: "SELFCHECK".into(), case: what.clone(), detail: what, replay: serde_json::json!({"kind": "selfcheck", "tag": "SELFCHECK"}) });
+        }
+    };
+    // (i)
+    match vcore::utf8::self_check() {
+        Ok(n) => rep.count("utf8_dfa_cases", n),
+        Err(e) => fail(&mut rep, e),
+    }
+    // (ii) Unicode classes over all scalars
+    let classes = [".", "[^a]", "[α-ω]", "\\p{Greek}", "\\w", "\\p{L}", "(?i:k)", "(?i:s)", "[é-ü]", "\\s", "\\d", "\\p{XID_Start}", "\\p{XID_Continue}", "[\\u{0}-\\u{10FFFF}]", "\\p{Cyrillic}", "[^\\x00-\\x7f]", "(?s:.)", "\\p{White_Space}", "[a-zé]"];
+    let res: Vec<Result<u64, String>> = classes
+        .par_iter()
+        .map(|cp| {
+            let hir = parse(cp, true).ok_or(format!("cannot parse {cp}"))?;
+            let HirKind::Class(Class::Unicode(cls)) = hir.kind() else { return Err(format!("{cp} is not a Unicode class")) };
+            let ra = RefAut::build(&[hir.clone()], &[], 100_000).map_err(|e| format!("{cp}: {e:?}"))?;
+            let mut n = 0u64;
+            let mut buf = [0u8; 4];
+            for u in 0..0x110000u32 {
+                let Some(c) = char::from_u32(u) else { continue };
+                let enc = c.encode_utf8(&mut buf).as_bytes();
+                let member = cls.ranges().iter().any(|r| r.start() <= c && c <= r.end());
+                let accepted = !ra.matches(enc, None).is_empty();
+                n += 1;
+                if member != accepted {
+                    return Err(format!("class {cp}: U+{u:04X} member={member} but the byte automaton says {accepted}"));
+                }
+            }
+            Ok(n)
+        })
+        .collect();
+    for r in res {
+        match r {
+            Ok(n) => rep.count("unicode_class_scalars_checked", n),
+            Err(e) => fail(&mut rep, e),
+        }
+    }
+    // (iii) + (iv) on every term of a small family and every string up to length L
+    let mut atoms: Vec<&str> = vcore::enumerate::ATOMS_CORE.to_vec();
+    atoms.extend(["€", "[a-c]", "(?-u:\\b)", "(?-u:\\B)", "$", "(?m:$)", "(?m:^)", "^", "(?-u:\\b{start})", "(?-u:\\b{end-half})"]);
+    let k = if a.tier == vcore::enumerate::Tier::Thorough { 2 } else { 1 };
+    let mut terms = vcore::enumerate::terms(&atoms, k, vcore::enumerate::POSTFIX, vcore::enumerate::FLAGS);
+    if k == 2 {
+        terms.truncate(6000);
+    }
+    let alpha: Vec<&[u8]> = vec![b"a", b"b", "é".as_bytes(), b"\n", b"0", b" ", "€".as_bytes(), b"\xff"];
+    let l = 4;
+    let mut strs: Vec<Vec<u8>> = vec![vec![]];
+    let mut cur: Vec<Vec<u8>> = vec![vec![]];
+    for _ in 0..l {
+        let mut nxt = vec![];
+        for s in &cur {
+            for x in &alpha {
+                let mut t = s.clone();
+                t.extend_from_slice(x);
+                nxt.push(t);
+            }
+        }
+        strs.extend(nxt.iter().cloned());
+        cur = nxt;
+    }
+    let res: Vec<Result<(u64, u64), String>> = terms
+        .par_iter()
+        .map(|t| {
+            let src = t.render();
+            let Some(hir) = parse(&src, true) else { return Ok((0, 0)) };
+            let ra = match RefAut::build(&[hir.clone()], &[], 100_000) {
+                Ok(r) => r,
+                Err(_) => return Ok((0, 0)),
+            };
+            let has_look = ra.has_look;
+            let re = if has_look { None } else { regex::bytes::Regex::new(&format!("(?s-u:\\A)(?:{src})(?-u:\\z)")).ok() };
+            let (mut n1, mut n2) = (0u64, 0u64);
+            for h in &strs {
+                let d = ends(&hir, h, 0);
+                let au = aut_ends(&ra, h);
+                n1 += 1;
+                if d != au {
+                    return Err(format!("pattern {src} on {:?}: denotational ends {d:?}, subset automaton {au:?}", String::from_utf8_lossy(h)));
+                }
+                if let Some(re) = &re {
+                    n2 += 1;
+                    if re.is_match(h) != au.contains(&h.len()) {
+                        return Err(format!("pattern {src} on {:?}: regex crate whole-match {}, subset automaton {}", String::from_utf8_lossy(h), re.is_match(h), au.contains(&h.len())));
+                    }
+                }
+            }
+            Ok((n1, n2))
+        })
+        .collect();
+    for r in res {
+        match r {
+            Ok((a1, a2)) => {
+                rep.count("denotational_vs_automaton_cases", a1);
+                rep.count("regex_crate_vs_automaton_cases", a2);
+            }
+            Err(e) => fail(&mut rep, e),
+        }
+    }
+    rep.count("selfcheck_patterns", terms.len() as u64);
+    rep.notes.push("selfcheck: the reference semantics agrees with std (UTF-8), char::encode_utf8 (Unicode classes), a denotational HIR evaluator and the regex crate on every enumerated case".into());
+    rep
+}
